@@ -128,6 +128,18 @@ pub fn ends_with_tree(e: &Expr) -> bool {
     }
 }
 
+/// Does the expression contain a character class that lists a separator?  Such a class has the
+/// invariant text `/` (so a glob like `[/]` walks the real file system root) and matches nothing.
+pub fn has_sep_class(e: &Expr) -> bool {
+    any_tok(e, &|t, _| match t {
+        Tok::Class { items, .. } => items.iter().any(|i| match i {
+            Item::Ch(c) => *c == '/',
+            Item::Range(a, b) => *a <= '/' && '/' <= *b,
+        }),
+        _ => false,
+    })
+}
+
 /// Does the expression contain a tree wildcard that is not delimited *in the expression* by its
 /// own separators or by the ends of the whole expression (`a{**/b}`, `{a/**}b`, `<**/a:2>`,
 /// `<a/**:2>`)?  The documentation does not define what such a wildcard matches.
@@ -242,7 +254,7 @@ fn gen_class(t: &mut Tape, cfg: &GenCfg) -> Tok {
                 Item::Range('0', '1'),
                 Item::Range('a', 'z'),
                 Item::Range('é', 'é'),
-                Item::Range('.', '0'),
+                if cfg.class_sep == 0 { Item::Range('0', '1') } else { Item::Range('.', '0') },
             ]));
         }
         else if t.chance(cfg.class_sep) {
